@@ -146,6 +146,8 @@ def main(props):
         mod = importlib.import_module(f'sa.rules.{prop.lower()}')
         ctx = report.Ctx(prop, 'quick')
         mod.run(base, ctx)
+        from sa import lints
+        lints.for_property(base, ctx, prop)
         by_mod = {}
         for q in ctx.functions_analysed:
             f = base.functions.get(q)
@@ -168,6 +170,7 @@ def main(props):
         c2 = report.Ctx(prop, 'quick')
         try:
             mod.run(repo, c2)
+            lints.for_property(repo, c2, prop)
             listed = report.load_known() if hasattr(report, 'load_known') \
                 else []
             new = [f for f in c2.findings
